@@ -32,7 +32,7 @@ def _sl(st, v):
     raise X.Unsupported(f"not a list of str: {o.kind}")
 
 
-def acc(lc, hint=None):
+def acc(lc, hint=None, pick="inner"):
     """The text accumulator of the loop: the parameter / local named `hint` if it is a str list, else the unique
     local (not a parameter of the contract) that holds a list of str (the most recently created one when there
     are several) -- so renaming the accumulator re-verifies."""
@@ -49,7 +49,8 @@ def acc(lc, hint=None):
     cands = {k: v for k, v in lc.st.frame.env.items() if k not in params and is_strlist(v)}
     if not cands:
         raise X.Unsupported("text accumulator not identified")
-    return max(cands.values(), key=lambda v: v.ref)          # several: the most recently created list (innermost accumulator)
+    # several: the most recently created list is the innermost accumulator, the oldest the outermost
+    return (max if pick == "inner" else min)(cands.values(), key=lambda v: v.ref)
 
 
 def cat_of(st, v):
@@ -637,6 +638,58 @@ def html_contracts(reg):
     return [gnt, extract_table, format_table, pn]
 
 
+# =====================================================================================
+# (b) sheet formatters  --  xls_extractor.py::_format_sheet_as_text  (symbolic, nw image)
+#
+# Statement: nw(result) == row-major concatenation of nw(display(cell)); the grid is the header row (when there
+# is one) followed by the data rows.  Column padding / separators are whitespace, i.e. invisible to nw.  The
+# separation image (cells / rows separated by whitespace) and the xlsx / ods formatters are BOUNDED stand-ins.
+# =====================================================================================
+XLS = "sharepoint2text/parsing/extractors/ms_legacy/xls_extractor.py"
+STRROW, RLEN, RCELL = X.STRROW, X.RLEN, X.RCELL
+ROWS_AT = z3.Function("rows.at", I, STRROW)
+ROW_NW = z3.Function("row_cells_nw", STRROW, I, S)
+GRID_NW = z3.Function("grid_rows_nw", STRROW, I, S)          # first argument: the header row (fixed per call)
+
+
+def grid_row(hdr, k):
+    return z3.If(RLEN(hdr) > 0, z3.If(k == 0, hdr, ROWS_AT(z3.simplify(k - 1))), ROWS_AT(k))
+
+
+define(ROW_NW, lambda r, k: [ROW_NW(r, k) == z3.If(k <= 0, lit(""), cc(ROW_NW(r, z3.simplify(k - 1)), NW(RCELL(r, z3.simplify(k - 1))))), RLEN(r) >= 0])
+define(GRID_NW, lambda h, k: [GRID_NW(h, k) == z3.If(k <= 0, lit(""), cc(GRID_NW(h, z3.simplify(k - 1)),
+                                                                        ROW_NW(grid_row(h, z3.simplify(k - 1)), RLEN(grid_row(h, z3.simplify(k - 1))))))])
+
+
+def xls_contracts():
+    def the_row(lc):
+        params = {p[0] for p in lc.ex.contract.params}
+        rows = [v for k, v in lc.st.frame.env.items() if k not in params and isinstance(v, VExt) and v.sort == "StrRow"]
+        if len({str(v.t) for v in rows}) != 1:
+            raise X.Unsupported("current row not identified")
+        return rows[0].t
+
+    def outer_inv(lc):
+        return Conj([("nw", NW(cat_of(lc.st, acc(lc, pick="outer"))) == GRID_NW(lc["headers"].t, lc.i))])
+
+    def inner_inv(lc):
+        return Conj([("nw", NW(cat_of(lc.st, acc(lc))) == ROW_NW(the_row(lc), lc.i))])
+
+    def post(c):
+        h = c.args["headers"].t
+        n = z3.Int("rows.len")
+        return NW(c.result.t) == GRID_NW(h, z3.If(RLEN(h) > 0, n + 1, n))
+
+    return [FnContract(
+        target=f"{XLS}::_format_sheet_as_text",
+        params=[("headers", X.p_strrow()), ("rows", X.p_rowseq(ROWS_AT))],
+        ensures=[("nw(result)==row-major-nw-of-cells", post)],
+        raises=[Raises("Exception", sub=True)],
+        loops={2: LoopSpec(inv=outer_inv, label="rows"), 3: LoopSpec(inv=inner_inv, label="cells")},
+        note="column widths are irrelevant to nw (rjust is whitespace): the width pass (loops 0, 1) is cut with invariant True",
+    )]
+
+
 def contracts(reg):
     X.install(reg)
     out = []
@@ -644,6 +697,7 @@ def contracts(reg):
     out += docx_contracts()
     out += dt_contracts(reg)
     out += html_contracts(reg)
+    out += xls_contracts()
     return out
 
 
@@ -660,6 +714,8 @@ FUNC_OF_CHECK = {
     "xlsx.format": "xlsx_extractor.py::_format_sheet_as_text",
     "xls.format": "xls_extractor.py::_format_sheet_as_text",
     "odf.element_text": "_shared.py::element_text",
+    "odg.text": "odg_extractor.py::_extract_full_text",
+    "pptx.paragraphs": "pptx_extractor.py::_extract_text_from_paragraphs",
 }
 
 
@@ -748,6 +804,7 @@ BOUNDED = [
     "heading in list, list-header, table, nested table, heading in cell, list in cell, header rows, section, tracked deletion, text box, table in list)",
     "html _HtmlTextExtractor.extract: body with <= 2 blocks out of 17 constructs (gen_html_bodies)",
     "ods _extract_sheet text / xlsx, xls _format_sheet_as_text: all grids with <= 3 rows x <= 3 cells (ragged), cells out of {token, empty, two words}; ods also repeated rows / cells",
+    "odg _extract_full_text: one page with <= 2 shapes out of 8 constructs; pptx _extract_text_from_paragraphs: txBody with <= 2 paragraphs of <= 3 items (526 bodies)",
     "document level (replay/c02_docs.py): 19 flow features x {docx, odt, html, rtf, txt}, 8 deck features x {pptx, odp}, 8 workbook features x {xlsx, ods} "
     "through the public read_* entry points and get_full_text()",
     "etree model validation: 478 trees (<= 3 levels) against xml.etree",
